@@ -63,7 +63,7 @@ def prove_path(entry, path, opts):
         try:
             signal.signal(signal.SIGALRM, _alarm); signal.alarm(opts.get('cf_cap', 120))
             try:
-                C = cfm.Canon(nodes, roots, path.hyps, sign_override=sign_override)
+                C = cfm.Canon(nodes, roots, path.hyps, sign_override=sign_override, inverse_polar=('no_inverse_polar' not in path.notes))
                 # stage 1: decisions only -- a path refuted by constant decisions needs no claim forms
                 C.run(droots)
                 early = any(const_truth(C, a, c, b) is not None and const_truth(C, a, c, b) != t for (a, c, b, t) in path.decisions)
@@ -93,8 +93,12 @@ def prove_path(entry, path, opts):
         for k, (N, D, kk, sg) in enumerate(C.signs):
             signchecks.append(('sign:%d' % k, pc + ["(< %s 0)" % C.rat_smt((N, D))]))
         feas = [('feasible', pc)]
-        r0 = smt.run_checks(pre, feas + signchecks, per_check_ms=opts.get('per_check_ms', 20000), jobs=2)
+        want_model = ('noraise' in path.notes and path.outcome.startswith('raise')) or ('mustraise' in path.notes and path.outcome == 'ret')
+        r0 = smt.run_checks(pre, feas + signchecks, per_check_ms=opts.get('per_check_ms', 20000), jobs=2, models=want_model)
         fz = r0['feasible'][0]
+        if want_model and fz == 'sat':
+            m = smt.parse_model(r0['feasible'][1])
+            res['feas_model'] = {int(k[1:]): v for k, v in m.items() if k[1:].isdigit() and int(k[1:]) in nodes and nodes[int(k[1:])].op == 'var'}
         if fz == 'unsat' or infeasible_const:
             res['feasible'] = False
             break
